@@ -29,6 +29,10 @@ def main() -> int:
     if a.replay:
         logging.basicConfig(level=logging.WARNING)
         spec = json.loads(open(a.replay).read())
+        if spec.get("chunk_policy"):
+            from vf.sim import device as _device  # noqa: PLC0415
+
+            _device.FORCED_POLICY = spec["chunk_policy"]
         return int(mod.replay(spec) or 0)
 
     t0 = time.monotonic()
